@@ -13,18 +13,18 @@ namespace Diskfs.GptCrash.C09
 
 /-- crash atomicity, GPT over GPT, every subset of in-flight sectors: the read succeeds and yields
     exactly the old or exactly the new partition list -/
-theorem gpt_crash_atomic {S P : Type} {n : Nat} (R : Reader S P n) (old new : Disk S n)
+theorem gpt_crash_atomic {S P : Type} {n : Nat} (R : Reader S P n) (pmFirst : Bool) (old new : Disk S n)
     (hOld : OldOk R old) (hNew : NewOk R new) (hColl : NoCrcCollision R old new)
-    (d : Disk S n) (hd : Crash old new d) :
+    (d : Disk S n) (hd : Crash pmFirst old new d) :
     (read R d).parts? = some (R.parts old.pa) ∨ (read R d).parts? = some (R.parts new.pa) :=
-  crash_atomic R old new hOld hNew hColl d hd
+  crash_atomic R pmFirst old new hOld hNew hColl d hd
 
 /-- in particular the read never fails -/
-theorem gpt_crash_never_error {S P : Type} {n : Nat} (R : Reader S P n) (old new : Disk S n)
+theorem gpt_crash_never_error {S P : Type} {n : Nat} (R : Reader S P n) (pmFirst : Bool) (old new : Disk S n)
     (hOld : OldOk R old) (hNew : NewOk R new) (hColl : NoCrcCollision R old new)
-    (d : Disk S n) (hd : Crash old new d) : read R d ≠ .err := by
+    (d : Disk S n) (hd : Crash pmFirst old new d) : read R d ≠ .err := by
   intro h
-  have := crash_atomic R old new hOld hNew hColl d hd
+  have := crash_atomic R pmFirst old new hOld hNew hColl d hd
   rw [h] at this
   simp [Out.parts?] at this
 
@@ -34,11 +34,28 @@ theorem complete_reads_primary {S P : Type} {n : Nat} (R : Reader S P n) (new : 
   GptCrash.complete_reads_primary R new hNew
 
 /-- first-ever write on a disk without a valid GPT: error (as before) or exactly the new table -/
-theorem blank_old {S P : Type} {n : Nat} (R : Reader S P n) (old new : Disk S n)
+theorem blank_old {S P : Type} {n : Nat} (R : Reader S P n) (pmFirst : Bool) (old new : Disk S n)
     (hP : R.hdrP old.ph = none) (hB : R.hdrB old.bh = none) (hNew : NewOk R new)
-    (d : Disk S n) (hd : Crash old new d) :
+    (d : Disk S n) (hd : Crash pmFirst old new d) :
     read R d = .err ∨ (read R d).parts? = some (R.parts new.pa) :=
-  GptCrash.blank_old R old new hP hB hNew d hd
+  GptCrash.blank_old R pmFirst old new hP hB hNew d hd
+
+/-- first-ever write seen through partition.Read (GPT, then the MBR view of sector 0), repaired order
+    (protective MBR last): every crash state reads exactly as the old disk did (no table / the old MBR
+    table) or as exactly the new GPT -/
+theorem first_write_atomic {S P M : Type} {n : Nat} (R : Reader S P n) (mbrView : S → Option M) (old new : Disk S n)
+    (hP : R.hdrP old.ph = none) (hB : R.hdrB old.bh = none) (hNew : NewOk R new)
+    (d : Disk S n) (hd : Crash false old new d) :
+    partRead R mbrView d = partRead R mbrView old ∨ partRead R mbrView d = .gpt (R.parts new.pa) :=
+  GptCrash.first_write_atomic R mbrView old new hP hB hNew d hd
+
+/-- as found (protective MBR first) that fails: right after the first synced write a blank disk reads
+    through partition.Read as an MBR table — neither old nor new -/
+theorem first_write_window_pmbr_first :
+    ∃ (R : Reader Nat Nat 1) (mbrView : Nat → Option Nat) (old new d : Disk Nat 1),
+      R.hdrP old.ph = none ∧ R.hdrB old.bh = none ∧ NewOk R new ∧ Crash true old new d ∧
+      partRead R mbrView d ≠ partRead R mbrView old ∧ partRead R mbrView d ≠ .gpt (R.parts new.pa) :=
+  GptCrash.first_write_window_pmbr_first
 
 /-- sanity: with both arrays written before either header there is a crash point that reads as an error -/
 theorem order_matters :
@@ -49,26 +66,30 @@ theorem order_matters :
 
 /-! ### tie to the code: order of the synced writes, and what is in flight -/
 
-/-- the order `Crash` encodes -/
-def modelWriteOrder : List String :=
-  ["protective MBR", "secondary partition array", "secondary GPT header", "primary partition array", "primary GPT header"]
+/-- the two orders `Crash` encodes: protective MBR first (`pmFirst = true`) or last -/
+def modelWriteOrder (pmFirst : Bool) : List String :=
+  (if pmFirst then ["protective MBR"] else []) ++
+  ["secondary partition array", "secondary GPT header", "primary partition array", "primary GPT header"] ++
+  (if pmFirst then [] else ["protective MBR"])
 
 /-- regenerated from partition/gpt/table.go: the `what` labels of the writeAtWithSync calls in
     Table.Write in source order, the sync inside writeAtWithSync after the WriteAt, no other WriteAt in
     Write, and the backup fallback only on *primaryContentError -/
 theorem facts_agree_write_order :
-    Generated.GptCrash.writeLabels = modelWriteOrder ∧
+    (Generated.GptCrash.writeLabels = modelWriteOrder true ∨ Generated.GptCrash.writeLabels = modelWriteOrder false) ∧
     Generated.GptCrash.syncAfterWrite = true ∧
     Generated.GptCrash.otherWriteAtCalls = 0 ∧
     Generated.GptCrash.fallbackOnContentErrorOnly = true := by
   decide
 
 open Diskfs.Gpt in
-/-- the model's write list has exactly that order and those offsets (fresh table, any size that Write accepts) -/
+/-- the model's write list has exactly that order and those offsets (any table Write accepts): backup
+    array, backup header, primary array, primary header at LBA 1, both arrays carrying the same bytes,
+    and the 66 protective-MBR bytes at 446 first (as found) or last (repaired) -/
 theorem write_list_shape (c : Cfg) (crc : Bytes → Nat) (t0 : Table) (size : Nat) (ws : List Wr) (t : Table)
     (h : write c crc t0 size = .ok (ws, t)) (hp : (if t0.initialized then t0 else initTable t0 size).pmbr = true) :
-    ∃ pm ba bh pa ph, ws = [⟨446, pm⟩, ba, bh, pa, ph] ∧ pm.length = 66 ∧ ph.off = t.lss ∧
-      ba.data = pa.data := by
+    ∃ pm ba bh pa ph, (ws = if c.pmbrLast then [ba, bh, pa, ph, ⟨446, pm⟩] else [⟨446, pm⟩, ba, bh, pa, ph]) ∧
+      pm.length = 66 ∧ ph.off = t.lss ∧ ba.data = pa.data := by
   unfold write at h
   generalize (if t0.initialized = true then t0 else initTable t0 size) = tt at h hp
   simp only at h
@@ -77,12 +98,17 @@ theorem write_list_shape (c : Cfg) (crc : Bytes → Nat) (t0 : Table) (size : Na
   · split at h
     · simp at h
     · simp at h
-    · split at h
+    · rename_i arr ps harr
+      split at h
       · simp at h
       · simp only [hp, if_true, Res.ok.injEq, Prod.mk.injEq] at h
         obtain ⟨h1, h2⟩ := h
         subst h1 h2
-        refine ⟨_, _, _, _, _, rfl, ?_, ?_, rfl⟩
+        refine ⟨pmbrEnc c tt, ⟨(toI64 ((tt.lss : Int) * toI64 ((arraySector tt false : Nat) : Int))).toNat, arr⟩,
+          ⟨(toI64 (toI64 ((tt.secondaryHeader : Nat) : Int) * (tt.lss : Int))).toNat, hdrEnc crc tt false arr⟩,
+          ⟨(toI64 ((tt.lss : Int) * toI64 ((arraySector tt true : Nat) : Int))).toNat, arr⟩,
+          ⟨((tt.lss : Int)).toNat, hdrEnc crc tt true arr⟩, ?_, ?_, ?_, rfl⟩
+        · cases c.pmbrLast <;> simp
         · simp [pmbrEnc]
         · simp
 
